@@ -324,7 +324,7 @@ def up(n):
             ls = "(" + ls + ")"
         if isinstance(r, Node) and r.k == "binary" and PREC.get(r["op"], 0) <= p:
             rs = "(" + rs + ")"
-        if isinstance(l, Node) and l.k in ("cast", "closure", "if", "match", "range"):
+        if isinstance(l, Node) and l.k in ("closure", "if", "match", "range"):
             ls = "(" + ls + ")"
         if isinstance(r, Node) and r.k in ("closure", "if", "match", "range"):
             rs = "(" + rs + ")"
